@@ -121,6 +121,14 @@ CLAIMS.update({
    design="3/C19"),
 })
 
+CLAIMS.update({
+ 'C15': dict(
+   text="Explicit-state breadth-first search (X2) over the real endpoints against a scripted peer, both roles. Server with two accepted streams: graceful_shutdown, abrupt_shutdown(code), respond, push_request, handle drops; the peer opens further streams racing the GOAWAY, acknowledges the shutdown PING early or late, finishes its requests, sends its own GOAWAY (quick: depth 8, 0.9 M executions). Invariants in every state: last-stream-ids of emitted GOAWAYs never increase and are never below a stream already returned by accept(); after GOAWAY(L) peer streams above L are neither surfaced nor answered; push_request fails once the peer's GOAWAY was processed. Epilogue from every new state: graceful shutdown = GOAWAY(2^31-1), PING, after the ACK GOAWAY(last processed), every accepted stream answered, transport shut down, Ok(()). Client with two requests in flight: up to two peer GOAWAYs (last-stream-id 0/1/3/5/2^31-1, codes 0/2/0xdeadbeef, with/without debug data, never increasing), responses, EOF, new requests, poll_ready, response polls. Invariants: no send_request / poll_ready success and no new HEADERS once the GOAWAY was processed; streams above L fail with origin remote / kind GOAWAY / the peer's code and debug data. Epilogue: streams <= L complete when answered, nothing stays pending, the connection result carries the peer's code and debug data.",
+   note="The reaction to a peer that raises its last-stream-id is unspecified and not part of the alphabet. Byte-level chunking of GOAWAY frames is covered by C09/C12, not here.",
+   tech="explicit-state BFS over the real implementation with canonical state hashing, both roles against a scripted peer; epilogue (drain to completion) from every new state",
+   design="3/C15"),
+})
+
 NOT_YET = "check not built yet (work in progress; DESIGN.md section 3 describes the planned harness)"
 NA = {}
 
